@@ -11,13 +11,14 @@ from .cli import VERIF, jsonable
 def write_evidence(mod, prop, tier, seed, merged, wall, new_violations, known_seen, units):
     d = mod.describe(tier)
     c = merged.counters
-    states = len(merged.states)
+    states = getattr(merged, "states_override", None) or len(merged.states)
+    nontrivial = getattr(merged, "nontrivial_override", None) or len(merged.nontrivial)
     coverage = {
         "states": max(states, 0),
         "transitions": int(c.get("transitions", 0)),
         "traces_validated_against_impl": int(c.get("validated", 0)),
         "evaluations": int(c.get("evaluations", 0)),
-        "distinct_nontrivial": len(merged.nontrivial),
+        "distinct_nontrivial": nontrivial,
         "distinct_outcomes": len(merged.outcomes),
         "rule": d["rule"],
         "samples": jsonable(merged.samples) or ([jsonable(units[0])] if units else []),
